@@ -1051,6 +1051,10 @@ class _ExprNorm(ast.NodeTransformer):
             if not (la.vararg or la.kwarg or la.kwonlyargs or la.defaults or la.posonlyargs) and len(la.args) == len(node.args) \
                     and all(isinstance(a, ast.Constant) or norm._attr_chain(a) is not None for a in node.args):
                 return norm._Subst({p_.arg: a for p_, a in zip(la.args, node.args)}).visit(copy.deepcopy(node.func.body))
+        # f(**{"a": x}) is f(a=x)
+        if any(k.arg is None and isinstance(k.value, ast.Dict) for k in node.keywords):
+            from .nf import _expand_dict_keywords
+            node = _expand_dict_keywords(node)
         # typing.cast(T, x) is x
         if f in ("cast", "typing.cast") and len(node.args) == 2 and not node.keywords:
             return node.args[1]
@@ -1506,16 +1510,38 @@ class Canon:
                 continue
             cname, x = s_.value.func.id, s_.targets[0].id
             c = module.classes.get(cname)
-            if c is None or not cname.startswith("_") or f"class:{cname}" in known or not c.is_dataclass \
-                    or any(n_ in c.methods for n_ in ("__init__", "__post_init__", "__new__", "__getattr__", "__setattr__")):
+            if c is None or not cname.startswith("_") or f"class:{cname}" in known \
+                    or any(n_ in c.methods for n_ in ("__post_init__", "__new__", "__getattr__", "__setattr__", "__getattribute__")):
                 continue
-            params = [f.name for f in c.all_fields() if f.init and not f.classvar]
             call = s_.value
-            if any(isinstance(a, ast.Starred) for a in call.args) or any(k.arg is None for k in call.keywords) or len(call.args) > len(params):
+            if any(isinstance(a, ast.Starred) for a in call.args) or any(k.arg is None for k in call.keywords):
                 continue
-            vals = dict(zip(params, call.args))
-            vals.update({k.arg: k.value for k in call.keywords if k.arg in params})
-            if set(vals) != set(params) or not all(norm.is_pure(v, _PURE_EXT) for v in vals.values()):
+            if c.is_dataclass and "__init__" not in c.methods:
+                params = [f.name for f in c.all_fields() if f.init and not f.classvar]
+                if len(call.args) > len(params):
+                    continue
+                vals = dict(zip(params, call.args))
+                vals.update({k.arg: k.value for k in call.keywords if k.arg in params})
+                if set(vals) != set(params):
+                    continue
+            elif not c.is_dataclass and "__init__" in c.methods and not [b_ for b_ in c.node.bases if u(b_) not in ("object",)]:
+                # a plain class whose constructor only files its arguments: self.f = param
+                init = c.methods["__init__"]
+                binds = norm.bind_call(init, call, True)
+                ib = real_body(init)
+                sn = init.args.args[0].arg if init.args.args else None
+                if binds is None or sn is None or init.args.vararg or init.args.kwarg or not ib or not all(
+                        isinstance(x, (ast.Assign, ast.AnnAssign)) and isinstance(x.value, ast.Name) and x.value.id in binds
+                        and isinstance(t_ := (x.targets[0] if isinstance(x, ast.Assign) else x.target), ast.Attribute)
+                        and isinstance(t_.value, ast.Name) and t_.value.id == sn for x in ib):
+                    continue
+                vals = {(x.targets[0] if isinstance(x, ast.Assign) else x.target).attr: binds[x.value.id] for x in ib}
+                # no method stores to the fields
+                if any(isinstance(n, ast.Attribute) and isinstance(n.ctx, (ast.Store, ast.Del)) for mn_, m_ in c.methods.items() if mn_ != "__init__" for n in ast.walk(m_)):
+                    continue
+            else:
+                continue
+            if not all(norm.is_pure(v, _PURE_EXT) for v in vals.values()):
                 continue
             if sum(1 for b_ in stmts for n in ast.walk(b_) if isinstance(n, ast.Name) and n.id == x and not isinstance(n.ctx, ast.Load)) != 1:
                 continue
@@ -1528,9 +1554,17 @@ class Canon:
                     return None
                 b_ = real_body(m)
                 ps = [a.arg for a in m.args.args]
-                if len(b_) != 1 or not isinstance(b_[0], ast.Return) or b_[0].value is None or len(ps) != len(args) + 1 or not norm.is_pure(b_[0].value, _PURE_EXT):
+                if len(ps) != len(args) + 1:
                     return None
-                e = copy.deepcopy(b_[0].value)
+                if len(b_) == 1 and isinstance(b_[0], ast.Return) and b_[0].value is not None:
+                    e = copy.deepcopy(b_[0].value)
+                else:
+                    # temporaries and guard clauses: the value as a conditional expression
+                    if _contains(m, (ast.Raise, ast.For, ast.While, ast.Try, ast.With, ast.Yield, ast.YieldFrom)):
+                        return None
+                    e = Inliner(lambda call_: None)._body_expr([copy.deepcopy(x) for x in b_], {}, 0)
+                if e is None or not norm.is_pure(e, _PURE_EXT):
+                    return None
 
                 class SelfProj(ast.NodeTransformer):
                     def visit_Attribute(self, node):
